@@ -20,10 +20,11 @@ var c03LemmaFuncs = []string{
 }
 
 func init() {
+	bitlayout.ParamName = ssaq.ParamRefName
 	extraLemmaFuncs = append(extraLemmaFuncs, c03LemmaFuncs...)
 	Register(&Spec{
 		ID:          "C03",
-		Explanation: "Decides that the bit layout of every pointer-word decoder equals the encoding specification, by abstract interpretation of the decoder functions over a per-bit provenance domain (R1: type bits [0,2), far flag bit 2, offset = sign-extended [2,32), data words [32,48), pointer count [48,64), element size [32,35), count [35,64), far offset [3,32) bytes, segment id [32,64), landing-pad rewrite); that the resolution code has the confirmed normal form in each pointer shape (R2: near pointers against paddr+8, far against the pad's +8, double-far against offset 0 of the segment named in the pad with the tag's size fields; composite lists take count and element size from the tag and start one word later); and the default/upgrade clauses (R3: dataAddress and Struct.Ptr fail beyond the section, primitiveElem on a struct list requires both sections to be large enough and returns the address of the section the expected element names). Does NOT decide value equality of decoded trees against an independent decoder.",
+		Explanation: "Decides that the bit layout of every pointer-word decoder equals the encoding specification, by abstract interpretation of the decoder functions over a per-bit provenance domain (R1: type bits [0,2), far flag bit 2, offset = sign-extended [2,32), data words [32,48), pointer count [48,64), element size [32,35), count [35,64), far offset [3,32) bytes, segment id [32,64), landing-pad rewrite); that the resolution code has the confirmed normal form in each pointer shape (R2: near pointers against paddr+8, far against the pad's +8, double-far against offset 0 of the segment named in the pad with the tag's size fields; composite lists take count and element size from the tag and start one word later); and the default/upgrade clauses (R3: dataAddress and Struct.Ptr fail beyond the section, primitiveElem on a struct list requires both sections to be large enough and returns the address of the section the expected element names). (R2a) the field accessors and the address arithmetic they use have their confirmed normal forms (a read that succeeds lies inside the section; a field beyond it reads as the default); (R5) the three readers construct objects only under a bounds test of the constructed extent (shared with C01-R5). Does NOT decide value equality of decoded trees against an independent decoder.",
 		Run:         runC03,
 	})
 }
@@ -65,8 +66,20 @@ func runC03(ctx *Ctx) {
 	ruleBitLayout(ctx, "C03-R1", decoderCases)
 	if ctx.Primary {
 		ruleKernelLemmas(ctx, "C03-R2", c03LemmaFuncs)
+		// the field accessors: a read that succeeds lies inside the data or
+		// pointer section, and a field beyond it reads as the default (the same
+		// confirmed normal forms as C01-R6, under this property's id)
+		ruleKernelLemmas(ctx, "C03-R2a", []string{
+			"capnp.(Struct).dataAddress", "capnp.(Struct).pointerAddress", "capnp.(Struct).bitInData", "capnp.(Struct).Ptr", "capnp.(Struct).HasPtr",
+			"capnp.(Struct).Bit", "capnp.(Struct).Uint8", "capnp.(Struct).Uint16", "capnp.(Struct).Uint32", "capnp.(Struct).Uint64",
+			"capnp.(address).element", "capnp.(address).addSize", "capnp.(pointerOffset).resolve", "capnp.(*Segment).regionInBounds",
+			"capnp.(*Segment).readUint8", "capnp.(*Segment).readUint16", "capnp.(*Segment).readUint32", "capnp.(*Segment).readUint64", "capnp.(*Segment).readRawPointer",
+			"capnp.(List).Len", "capnp.isOneByteList", "capnp.(Ptr).text", "capnp.(Ptr).DataDefault"})
 	}
 	ruleUpgradeAddress(ctx, "C03-R3")
+	// the three readers build an object only under a bounds test of its extent
+	// (shared with C01-R5)
+	ruleConstructionSites(ctx, "C03-R5")
 	r := ctx.Rep
 	r.Floor("C03-R1", 11)
 	r.Floor("C03-R2", 8)
@@ -95,7 +108,7 @@ func evalBitsWith(q *ssaq.Q, c bitCase, override map[string]bitlayout.Vec) (map[
 		ev.Inputs[in.name] = v
 	}
 	for _, p := range f.Params {
-		if v, ok := ev.Inputs[p.Name()]; ok {
+		if v, ok := ev.Inputs[ssaq.ParamRefName(p)]; ok {
 			args = append(args, v)
 		} else {
 			args = append(args, bitlayout.Top())
